@@ -12,7 +12,7 @@ use serde_json::{json, Value};
 use std::collections::HashMap;
 use std::io::{Read, Write};
 use std::net::{SocketAddr, TcpListener, TcpStream};
-use std::os::fd::FromRawFd;
+use std::os::fd::{AsRawFd, FromRawFd};
 use std::sync::{Arc, Mutex};
 use std::time::Duration;
 
@@ -63,6 +63,11 @@ fn header_get<'a>(headers: &'a [(String, String)], name: &str) -> Option<&'a str
 /// Reads from `s` into `buf` until a complete HTTP message (head + body) is available from offset 0.
 /// Returns None on EOF/timeout before a complete message. `is_response` selects the first-line grammar and
 /// the body rules (responses without framing run to EOF).
+thread_local! {
+    /// bytes per second at which this (mock host) thread takes data in; 0 = as fast as it comes
+    static READ_BPS: std::cell::Cell<u64> = const { std::cell::Cell::new(0) };
+}
+
 fn read_message(s: &mut TcpStream, buf: &mut Vec<u8>, is_response: bool, head_only: bool) -> Result<Option<Parsed>, String> {
     let mut tmp = vec![0u8; 65536];
     loop {
@@ -78,7 +83,13 @@ fn read_message(s: &mut TcpStream, buf: &mut Vec<u8>, is_response: bool, head_on
                 }
                 return Ok(None);
             }
-            Ok(n) => buf.extend_from_slice(&tmp[..n]),
+            Ok(n) => {
+                buf.extend_from_slice(&tmp[..n]);
+                let bps = READ_BPS.with(|c| c.get());
+                if bps > 0 && !is_response {
+                    std::thread::sleep(Duration::from_micros(n as u64 * 1_000_000 / bps));
+                }
+            }
             Err(e) => {
                 if e.kind() == std::io::ErrorKind::WouldBlock || e.kind() == std::io::ErrorKind::TimedOut {
                     return Err("timeout".to_string());
@@ -235,6 +246,19 @@ fn host_conn(name: String, mut s: TcpStream) {
     let idle_s = std::env::var("VERIF_HOST_IDLE_S").ok().and_then(|v| v.parse().ok()).unwrap_or(30u64);
     let _ = s.set_read_timeout(Some(Duration::from_secs(idle_s)));
     let _ = s.set_nodelay(true);
+    // VERIF_HOST_SLOW="<host name>:<bytes per second>": that mock host takes request data in slowly (a loaded host, a slow
+    // path) through a small receive buffer, so that the sender really has to wait for it
+    if let Ok(v) = std::env::var("VERIF_HOST_SLOW") {
+        if let Some((h, bps)) = v.split_once(':') {
+            if h == name {
+                READ_BPS.with(|c| c.set(bps.parse().unwrap_or(0)));
+                let sz: libc::c_int = 65536;
+                unsafe {
+                    libc::setsockopt(s.as_raw_fd(), libc::SOL_SOCKET, libc::SO_RCVBUF, &sz as *const _ as *const libc::c_void, 4);
+                }
+            }
+        }
+    }
     verif::trace::emit(json!({"e": "HostConn", "host": name, "hconn": hconn}));
     let mut buf: Vec<u8> = Vec::new();
     let mut parsed_bytes = 0usize;
